@@ -94,6 +94,11 @@ func CheckSignature(r interface{}, pub ref.Pt, msg []byte) error {
 		if !ref.ECDSAVerify(pub, msg, rr, Sc(s.S)) {
 			return fmt.Errorf("reference ECDSA verification fails")
 		}
+		// the signature object carries the whole nonce point (its Ethereum form derives the recovery id from it):
+		// it must be the point the equation determines, not only a point with the same x coordinate
+		if np := ref.ECDSANoncePoint(pub, msg, rr, Sc(s.S)); !np.Equal(R) {
+			return fmt.Errorf("(r, s) verifies, but the nonce point R of the signature object is not s^-1(m*G + r*X): it is its negation, so the Ethereum form of this signature recovers another key")
+		}
 		return nil
 	case taproot.Signature:
 		if pub.Inf {
